@@ -123,8 +123,9 @@ func getTestID(b []byte) (string, bool) {
 		return "", false
 	}
 
-	// needs to start with [Test and end with ]
-	if !bytes.HasPrefix(b, []byte("[Test")) || b[len(b)-1] != ']' {
+	// needs to start with [Test, [Benchmark or [Fuzz (the names of the functions that can
+	// hold a testing.TB) and end with ]
+	if !hasTestIDPrefix(b) || b[len(b)-1] != ']' {
 		return "", false
 	}
 
@@ -140,6 +141,16 @@ func getTestID(b []byte) (string, bool) {
 	}
 
 	return string(b[1 : len(b)-1]), true
+}
+
+func hasTestIDPrefix(b []byte) bool {
+	for _, prefix := range []string{"[Test", "[Benchmark", "[Fuzz"} {
+		if bytes.HasPrefix(b, []byte(prefix)) {
+			return true
+		}
+	}
+
+	return false
 }
 
 func isNumber(b []byte) bool {
